@@ -345,6 +345,7 @@ PROPS = {
                 not_decided=["compiled cmultiply kernel (assumed; exhaustive products to exponent sum 600 at run time)", "savetxt/loadtxt of keys (bounded)"]),
     "C13": dict(level="other", contracts=["numpoly.ndpoly.__reduce__", "numpoly.ndpoly.__array_finalize__",
                                           "numpoly.polynomial_from_attributes"],
+                statics=[statics.instance_state_obligations],
                 explanation="__reduce__ (real source) is proved to return polynomial_from_attributes together with the polynomial's "
                 "own exponents, coefficients, names, dtype and allocation and retain_coefficients=False; the round-trip lemma applies the "
                 "proved contract of polynomial_from_attributes to exactly that tuple under a symbolic option map: reconstruction "
